@@ -50,6 +50,33 @@ def call_bin(calc, numpy, vals, edges, open_, how):
                 return r
             out.append(int(numpy.asarray(r).reshape(-1)[0]))
         return out
+    if how == 'forecast':
+        # the forecast's own magnitude lookup (open-ended; below the first edge it refuses: reported as -1 here)
+        from csep.core.forecasts import GriddedForecast
+        from csep.core.regions import CartesianGrid2D
+        reg = CartesianGrid2D.from_origins(numpy.array([[0.0, 0.0]]), dh=1.0)
+        fc = GriddedForecast(region=reg, magnitudes=numpy.asarray(edges, dtype=float), data=numpy.ones((1, len(edges))), name='b')
+        out = []
+        for v in vals:
+            r = guarded(fc.get_magnitude_index, [v])
+            if isinstance(r, Raised):
+                if not r.text.startswith('ValueError'):
+                    return r
+                out.append(-1)
+            else:
+                out.append(int(numpy.asarray(r).reshape(-1)[0]))
+        return out
+    if how == 'catalog':
+        # the catalog's magnitude index against the magnitude bins bound to its region (open-ended)
+        from csep.core.catalogs import CSEPCatalog
+        from csep.core.regions import CartesianGrid2D
+        reg = CartesianGrid2D.from_origins(numpy.array([[0.0, 0.0]]), dh=1.0)
+        reg.magnitudes = numpy.asarray(edges, dtype=float)
+        cat = CSEPCatalog(data=[('e%d' % i, i, 0.5, 0.5, 1.0, float(v)) for i, v in enumerate(vals)], region=reg)
+        r = guarded(cat.get_mag_idx)
+        if isinstance(r, Raised):
+            return r
+        return [int(a) for a in numpy.asarray(r).reshape(-1)]
     if how == 'list':
         r = guarded(calc.bin1d_vec, list(vals), list(edges), right_continuous=open_)
     elif how == 'f32':
@@ -105,7 +132,8 @@ def run(chk, replay=None):
     for gi, (start, step) in enumerate(grids):
         for (n, open_, pos), allowed in table.items():
             edges = exact_edges(start, step, n)
-            for how in (hows if (gi + n) % 4 == 0 else [hows[(gi + pos) % 4]]):
+            extra_hows = [['forecast'], ['catalog']][(gi + pos) % 2] if open_ and (gi + n + pos) % 3 == 0 else []
+            for how in (hows if (gi + n) % 4 == 0 else [hows[(gi + pos) % 4]]) + extra_hows:
                 dtype = 'float32' if how == 'f32' else 'float64'
                 if how == 'f32':
                     e32 = [float(numpy.float32(e)) for e in edges]
